@@ -33,6 +33,7 @@ import (
 
 type SvcOp struct {
 	FailSend int     `json:"fail_send,omitempty"` // scan/txscan: the client abandons the stream at its n-th result
+	DeadCtx  bool    `json:"dead_ctx,omitempty"`  // commit/rollback: the request arrives with its context already cancelled
 	K        string  `json:"k"`                   // get put del batch scan begin txget txput txdel txscan commit rollback nodeinfo sleep
 	Key      []byte  `json:"key,omitempty"`
 	KeyLen   int     `json:"key_len,omitempty"` // >0: a synthetic key of this length (boundary sizes)
@@ -432,10 +433,19 @@ func runC19(t *testing.T, c SvcCase) *kit.Result {
 			case "commit", "rollback":
 				h, id := handleOf(o)
 				var err error
+				cctx := ctx
+				if o.DeadCtx {
+					// the caller gave up (deadline, cancel) while the request was on
+					// its way: whatever the handler answers, the transaction must end
+					// one way or the other and nothing may stay locked
+					dctx, cancel := context.WithCancel(ctx)
+					cancel()
+					cctx = dctx
+				}
 				if o.K == "commit" {
-					_, err = svc.CommitTransaction(ctx, wire(&pb.CommitTransactionRequest{TransactionId: id}))
+					_, err = svc.CommitTransaction(cctx, wire(&pb.CommitTransactionRequest{TransactionId: id}))
 				} else {
-					_, err = svc.RollbackTransaction(ctx, wire(&pb.RollbackTransactionRequest{TransactionId: id}))
+					_, err = svc.RollbackTransaction(cctx, wire(&pb.RollbackTransactionRequest{TransactionId: id}))
 				}
 				if h == nil || !h.open {
 					rejected++
@@ -650,7 +660,7 @@ func genSvcCase(r *kit.Rand, tier string) SvcCase {
 			}
 			c.Ops = append(c.Ops, o)
 		case 7:
-			o := SvcOp{K: kit.PickOf(r, "commit", "commit", "rollback"), H: pickH()}
+			o := SvcOp{K: kit.PickOf(r, "commit", "commit", "rollback"), H: pickH(), DeadCtx: r.Bool(0.06)}
 			c.Ops = append(c.Ops, o)
 			if o.H >= 0 && nHandles > 0 {
 				h := o.H % nHandles
